@@ -731,6 +731,23 @@ func churnBehindLeaderlessGroup(rec *mon.Recorder, c int) bool {
 	if !marker(fmt.Sprintf("after %d membership changes behind the blocked handler", changes), 150*time.Second) {
 		return false
 	}
+	// The dataset whose partition group cannot elect a leader is deleted: its replica on the surviving node is
+	// unloaded (group stopped, log deleted) while the node-change handler may still be inside a proposal to that
+	// group. The catalogue must go on being applied afterwards.
+	var delErr error
+	if !cl.Guard(30*time.Second, func() { delErr = other.DM().Delete(ctx, ds) }) {
+		return !stalled("deletion of the dataset whose partition group has no leader")
+	}
+	note(fmt.Sprintf("dataset of the leaderless partition group deleted err=%v", delErr))
+	if delErr == nil {
+		rec.Count("leaderless_group_datasets_deleted", 1)
+		if cl.WaitFor(40*time.Second, func() bool { return S.Dataset(ds) == nil && other.Dataset(ds) == nil }) != nil {
+			return !stalled("catalogue apply of the deletion on both live members")
+		}
+	}
+	if !marker("after the dataset of the leaderless partition group was deleted", 60*time.Second) {
+		return false
+	}
 	for _, n := range []*sim.Node{S, other} {
 		if !cl.Guard(10*time.Second, func() { n.DM().List(ctx, false) }) {
 			return !stalled(fmt.Sprintf("List on node %d", n.Id))
